@@ -8,7 +8,7 @@ MODULE, PKG, BIN = "cesium", "./verifh/c04", "c04"
 COQ_IMPORTS = ("From Synnax Require Import Common.Base Cesium.Store Cesium.DeleteModel Cesium.GCModel "
                "Monitors.Mon_C04.")
 CASE_TYPE = "case_t"
-COUNTS = {"quick": 220, "thorough": 2000}
+COUNTS = {"quick": 250, "thorough": 2000}
 SHARD = 20
 MAXTS = 2 ** 63 - 1
 
@@ -69,7 +69,7 @@ class Gen:
                 chans.append({"key": key, "index": ix, "type": t})
                 data.append(key)
                 key += 1
-            groups.append({"ix": ix, "data": data, "blocks": [], "nblock": 0})
+            groups.append({"ix": ix, "data": data, "blocks": [], "nblock": 0, "desc": rng.random() < 0.3})
         self.types = {c["key"]: c["type"] for c in chans}
         cap = rng.choice(CAPS)
         thr = rng.choice(THRESHOLDS)
@@ -78,6 +78,11 @@ class Gen:
         deleted = []   # (group index, a, b) of deletes naming every channel of a group
         nops = rng.randrange(6, 15)
         base_of_group = [0, 500000]
+        if rng.random() < 0.3:
+            # nested multi-domain deletes: the second delete starts in the sample-free tail of
+            # the remainder left by the first and ends on (or just inside) a later domain
+            ops += self.nested_scenario(groups[0], base_of_group[0], alphabet)
+            nops = rng.randrange(2, 8)
         for step in range(nops):
             x = rng.random()
             gi = rng.randrange(len(groups))
@@ -94,7 +99,7 @@ class Gen:
             else:
                 ops.append({"op": "reopen"})
         # a tail that makes GC effective: reopen closes the pooled handles
-        if rng.random() < 0.6:
+        if rng.random() < 0.75:
             ops.append({"op": "reopen"})
             ops.append({"op": "gc"})
             if rng.random() < 0.5:
@@ -119,6 +124,58 @@ class Gen:
                 a, b = b, a        # inverted bounds
             ranges.append([a, b])
         return {"cap": cap, "thr": thr, "channels": chans, "ops": ops, "ranges": ranges}
+
+    def nested_scenario(self, g, base, alphabet):
+        rng = self.rng
+        ops = []
+        chs = [g["ix"]] + g["data"]
+        nb = rng.choice([2, 3, 3, 4])
+        blocks = []
+        for _ in range(nb):
+            gap = rng.choice([2, 7, 10])
+            n = rng.randrange(3, 6)
+            cont = blocks and rng.random() < 0.3
+            if cont:
+                start = blocks[-1]["stamps"][-1] + 1
+                first = start if rng.random() < 0.5 else start + rng.choice([1, 3])
+            else:
+                g["nblock"] += 1
+                first = base + 1000 * g["nblock"]
+                start = first if rng.random() < 0.6 else first - rng.choice([1, 4, 20])
+            stamps = [first + i * gap for i in range(n)]
+            blk = {"stamps": stamps, "written": set(chs), "start": start}
+            g["blocks"].append(blk)
+            blocks.append(blk)
+            self.note_stamps(alphabet, stamps, start, stamps[-1] + 1)
+            ops.append(self.mk_write(start, chs, stamps))
+        named = [k for k in g["data"] if rng.random() < 0.8] or [g["data"][0]]
+        if rng.random() < 0.3:
+            named = named + [g["ix"]]
+            rng.shuffle(named)
+        A = blocks[0]
+        st = A["stamps"]
+        i = rng.randrange(1, len(st))          # first deleted sample (exact bound: not snapped)
+        j = rng.randrange(i, len(st) + 1)      # delete st[i..j)
+        a1 = st[i]
+        b1 = st[j] if j < len(st) else st[-1] + 1
+        if j < len(st) and rng.random() < 0.3:
+            b1 = st[j] - 1 if st[j] - 1 > a1 else st[j]
+        ops.append({"op": "delete", "chans": list(named), "a": a1, "b": b1})
+        if rng.random() < 0.3:
+            ops.append({"op": rng.choice(["gc", "reopen"])})
+        # second delete: from the tail (st[i-1], st[i]) of the remainder to a later domain
+        a2 = rng.randrange(st[i - 1] + 1, st[i])
+        C = rng.choice(blocks[1:])
+        y = rng.random()
+        if y < 0.6:
+            b2 = C["start"]                     # exactly the start of a later domain
+        elif y < 0.8:
+            b2 = rng.randrange(C["start"], C["stamps"][0] + 1)   # up to its first sample
+        else:
+            b2 = rng.choice(C["stamps"] + [C["start"] - 1, C["stamps"][-1] + 1])
+        ops.append({"op": "delete", "chans": list(named), "a": a2, "b": b2})
+        alphabet.update((a1, b1, a2, b2))
+        return ops
 
     def note_stamps(self, alphabet, stamps, start, end):
         for t in stamps:
@@ -169,11 +226,13 @@ class Gen:
             first = start if rng.random() < 0.5 else start + rng.choice([1, 3, 9])
         else:
             g["nblock"] += 1
-            first = base + 1000 * g["nblock"] + rng.choice([0, 0, 5])
+            # descending mode: later writes go to earlier times, so files are not in time order
+            nb = (40 - g["nblock"]) if g.get("desc") else g["nblock"]
+            first = base + 1000 * nb + rng.choice([0, 0, 5])
             start = first if rng.random() < 0.65 else first - rng.choice([1, 4, 20])
         stamps = [first + i * gap for i in range(n)]
         chs = [g["ix"]] + [k for k in g["data"] if rng.random() < 0.75]
-        blk = {"stamps": stamps, "written": set(chs)}
+        blk = {"stamps": stamps, "written": set(chs), "start": start}
         g["blocks"].append(blk)
         self.note_stamps(alphabet, stamps, start, stamps[-1] + 1)
         return self.mk_write(start, chs, stamps)
@@ -414,7 +473,7 @@ def model_dump(case, r):
 
 RULE = ("scripts of 6-18 operations over 1-2 index groups (index channel + 1-3 data channels of types int64, uint8, "
         "string/variable): writes (fresh blocks, contiguous continuations, starts before the first sample, data-only "
-        "writes over existing index stamps, writes into deleted regions), DeleteTimeRange over data-only / whole-group / "
+        "writes over existing index stamps, writes into deleted regions), 30% of the scripts open with a nested multi-domain delete pair (a second delete starting in the sample-free tail of the remainder of the first and ending on the start of a later domain), DeleteTimeRange over data-only / whole-group / "
         "index-only / cross-group / unknown-channel sets with bounds from {sample stamps, +-1, mid-gap, domain edges, 0, "
         "MAX, inverted, empty}, GC at thresholds {2^-20, 0.2, 0.5, 1} and file caps {210..1200} B, reopen; after every "
         "operation every channel is read over [0,MAX) and 5-9 ranges drawn from the same alphabet and from the neighbourhood of the delete bounds. Non-trivial = a script with "
